@@ -339,6 +339,7 @@ class Ctx:
         # the quick totals written in the modules were sized on a loaded
         # machine; META["quick_scale"] (default 3) multiplies them
         self.quick_scale = 1.0
+        self.thorough_scale = 1.0  # META["thorough_scale"], default 4
 
     @property
     def boundscheck(self) -> bool:
@@ -351,7 +352,8 @@ class Ctx:
 
     def n(self, quick: int, thorough: int) -> int:
         """Number of cases for *this shard* given totals for both tiers."""
-        total = thorough if self.thorough else int(quick * self.quick_scale)
+        total = int(thorough * self.thorough_scale) if self.thorough \
+            else int(quick * self.quick_scale)
         if self.warm:
             return min(total, 4)
         return max(1, -(-total // self.nshards))
